@@ -81,6 +81,22 @@ func c15Twins(list []string, variants func(string) []string, extra []string) (ou
 		}
 		out = append(out, rev)
 		how = append(how, "reversal")
+		// interleavings: element i*k mod n for the strides k coprime to n
+		for _, k := range []int{2, 3, 5, 7} {
+			g, a := n, k
+			for a != 0 {
+				g, a = a, g%a
+			}
+			if g != 1 || k >= n {
+				continue
+			}
+			t := make([]string, n)
+			for i := range t {
+				t[i] = list[i*k%n]
+			}
+			out = append(out, t)
+			how = append(how, fmt.Sprintf("stride %d", k))
+		}
 	}
 	for i := 0; i < n; i++ {
 		for _, pos := range []int{0, n} {
@@ -156,6 +172,21 @@ func c15Bases(c *vlib.Ctx) []CfgLit {
 				}
 			}
 		}
+	}
+	// long lists (a set implementation may change its representation with size): 9, 17 and 33 entries in one list,
+	// the other lists short
+	for _, n := range []int{9, 17, 33} {
+		var names, meths, orgs []string
+		for i := 0; i < n; i++ {
+			names = append(names, fmt.Sprintf("X-H%02d", i))
+			meths = append(meths, fmt.Sprintf("M%02d", i))
+			orgs = append(orgs, fmt.Sprintf("https://h%02d.example", i))
+		}
+		out = append(out,
+			CfgLit{Origins: []string{"https://a.b"}, RequestHeaders: names, MaxAge: 30},
+			CfgLit{Origins: []string{"https://a.b"}, ResponseHeaders: names, Credentialed: true},
+			CfgLit{Origins: []string{"https://a.b"}, Methods: meths},
+			CfgLit{Origins: orgs, Methods: []string{"PUT"}})
 	}
 	return out
 }
